@@ -19,6 +19,7 @@ EXPLANATION = ("Decided from MIR: (R1) in decode_to_end, inside one loop iterati
                "(informational). Byte equality under every interleaving is not decided."
                " (R3, rewritten) stated on the decoder's three read methods with every helper of compression.rs inlined: Condvar::wait_while on the published length with predicate `published < bound from the arguments`, the shared slice built with the length read under the lock, indexed within the bound waited for; (R7) evicted clusters stay alive through Arc clones; (R8) = C13-R5."
                ' Added later: (R9) the result of OnceLock::set never separates an error exit from the normal one; (R10) with the reader already Plain when the write lock is obtained, build_plain_reader returns without panicking or building a reader again.')
+EXPLANATION += ' Batch 11: (R8) FileSource::get_slice touches the file only through its own read_exact, and no method of FileSource takes a second handle (try_clone / raw fd) on the file.'
 ASSUMPTIONS = ["std Mutex/Condvar/RwLock semantics; rayon runs spawned closures to completion", "Vec never reallocates while len <= capacity",
                "the call graph over-approximates dynamic dispatch"]
 
